@@ -10,6 +10,8 @@ import (
 	"encoding/json"
 	"fmt"
 	"reflect"
+	"runtime"
+	"strings"
 	"sort"
 	"sync"
 	"sync/atomic"
@@ -426,6 +428,7 @@ type RunResult struct {
 	Err     error
 	Panic   interface{} // a panic that escaped the API
 	Aborted bool        // the logical hang detector fired
+	Blocked string      // non-empty: the engine call never returned; state of its parked goroutine
 	Final   State       // deep copy of the live facts at return
 	Calls   []CallRec
 	Matched []string // FetchMatchingRules result (names in returned order)
@@ -600,7 +603,13 @@ func Run(kb *ast.KnowledgeBase, prog *Program, st State, cfg RunCfg) *RunResult 
 	if ctx == nil {
 		ctx = context.Background()
 	}
-	func() {
+	// the engine call runs on its own goroutine so that a call that never returns because it is
+	// parked on a lock can be told from one that is still working (see waitEngine)
+	done := make(chan struct{})
+	var gid int64
+	go func() {
+		defer close(done)
+		atomic.StoreInt64(&gid, curGoroutineID())
 		defer func() {
 			if p := recover(); p != nil {
 				if _, ok := p.(runAbort); ok {
@@ -621,6 +630,18 @@ func Run(kb *ast.KnowledgeBase, prog *Program, st State, cfg RunCfg) *RunResult 
 			res.Err = eng.ExecuteWithContext(ctx, px, kb)
 		}
 	}()
+	if state := waitEngine(done, stamp, &gid); state != "" {
+		// the call is parked for good: hand back what was recorded so far (the goroutine stays behind)
+		rec.mu.Lock()
+		res.Events = append([]Event(nil), rec.Events...)
+		res.Cycles = append([]*CycleRec(nil), rec.Cycles...)
+		rec.mu.Unlock()
+		res.Aborted = true
+		res.Blocked = state
+		res.Err = fmt.Errorf("harness: the engine call did not return (%s)", state)
+		res.EntrySal = map[string]int{}
+		return res
+	}
 	res.Final = CopyState(rec.live())
 	res.NBound = rec.nbound
 	res.EntrySal = map[string]int{}
@@ -644,3 +665,85 @@ func NewInstance(lib *ast.KnowledgeLibrary) (*ast.KnowledgeBase, error) {
 }
 
 var _ = reflect.TypeOf
+
+// curGoroutineID reads the id of the calling goroutine from its stack header.
+func curGoroutineID() int64 {
+	var buf [64]byte
+	n := runtime.Stack(buf[:], false)
+	var id int64
+	fmt.Sscanf(string(buf[:n]), "goroutine %d ", &id)
+	return id
+}
+
+// parkedStates are goroutine wait reasons from which only another goroutine can release.
+var parkedStates = []string{"semacquire", "sync.Mutex.Lock", "sync.RWMutex.Lock", "sync.RWMutex.RLock", "chan receive", "chan send", "select", "sync.Cond.Wait", "sync.WaitGroup.Wait"}
+
+// waitEngine waits for the engine call. It returns "" when the call returned. When no event
+// has been recorded for 30 s it looks at the state of the call's goroutine: if that goroutine is
+// parked on a lock / channel (twice, 10 s apart, with still no event) the call is blocked for
+// good and the wait reason is returned; a goroutine that is running or runnable is waited for
+// (a wall-clock limit is no verdict: after 20 minutes the result is "no verdict", reported as blocked
+// with the reason "still running").
+func waitEngine(done chan struct{}, stamp *int64, gid *int64) string {
+	t := time.NewTimer(2 * time.Second)
+	defer t.Stop()
+	last := atomic.LoadInt64(stamp)
+	idle, parkedSeen := 0, 0
+	for {
+		select {
+		case <-done:
+			return ""
+		case <-t.C:
+		}
+		t.Reset(2 * time.Second)
+		if cur := atomic.LoadInt64(stamp); cur != last {
+			last, idle, parkedSeen = cur, 0, 0
+			continue
+		}
+		idle++
+		if idle < 15 || idle%5 != 0 {
+			continue
+		}
+		state := goroutineState(atomic.LoadInt64(gid))
+		parked := false
+		for _, p := range parkedStates {
+			if strings.HasPrefix(state, p) {
+				parked = true
+			}
+		}
+		if parked {
+			parkedSeen++
+			if parkedSeen >= 2 {
+				return "goroutine parked: " + state
+			}
+		} else {
+			parkedSeen = 0
+		}
+		if idle >= 600 {
+			return "still " + state + " after 20 minutes without an event"
+		}
+	}
+}
+
+// goroutineState returns the wait reason of goroutine id from a dump of all goroutines.
+func goroutineState(id int64) string {
+	buf := make([]byte, 1<<20)
+	for {
+		n := runtime.Stack(buf, true)
+		if n < len(buf) {
+			buf = buf[:n]
+			break
+		}
+		buf = make([]byte, 2*len(buf))
+	}
+	head := fmt.Sprintf("goroutine %d [", id)
+	i := strings.Index(string(buf), head)
+	if i < 0 {
+		return "gone"
+	}
+	rest := string(buf[i+len(head):])
+	if j := strings.IndexAny(rest, "]"); j >= 0 {
+		rest = rest[:j]
+	}
+	return rest
+}
